@@ -1,6 +1,7 @@
 import MpVerif.C04.Lemmas
 import MpVerif.C04.Chains
 import MpVerif.C04.Shared
+import MpVerif.Gen.ValCvt
 /-!
 # C04 — property theorems
 
@@ -55,6 +56,17 @@ theorem C04_primal (g : Graph) (sv dv n : Nat) (k : Kind) (inputs : List (Nat ×
         rw [h2, loadInto_of_lookup _ _ _ _ _ hx]
         simp only [resized]
         rw [if_pos (by omega)]
+
+/-- **Exactly one value per original variable**: the vector handed back to the modelling system is the WHOLE source variable node
+    (`readNode S' sv (g.size sv)`, what `RunPostsolve` returns), it has exactly `n` entries and entry `j` is the solver's `x[j]`. -/
+theorem C04_primal_exact (g : Graph) (sv dv n : Nat) (k : Kind) (inputs : List (Nat × List Val)) (x : List Val)
+    (prev S' : St) (hwf : g.wfVarsExact sv dv n = true) (hx : inputs.lookup dv = some x)
+    (hrun : runFrom g prev ⟨.post, k, inputs⟩ = some S') :
+    readNode S' sv (g.size sv) = (List.range n).map (fun j => x.getD j 0) ∧ (readNode S' sv (g.size sv)).length = n := by
+  simp only [Graph.wfVarsExact, Bool.and_eq_true, beq_iff_eq] at hwf
+  have h := C04_primal g sv dv n k inputs x prev S' hwf.1 hx hrun
+  rw [hwf.2]
+  exact ⟨h, by simp [readNode]⟩
 
 /-- the same vector written as "take `n` of the zero-padded solver vector" -/
 theorem C04_primal_take (x : List Val) (n : Nat) :
@@ -395,6 +407,15 @@ theorem C04_iis_returns_partial (S : St) (cs ct vs : Cell) (sd : SlackData)
 
 /-! ### Non-vacuity: the hypotheses hold and the certificates compute on the example graph -/
 
+/-- non-trivial instance of the hypotheses of `C04_primal_exact` (graph of a converted range constraint, a solver vector that is
+    too SHORT and one that is too LONG, dirty nodes before the call) -/
+example : exampleGraph.wfVarsExact 0 4 2 = true ∧
+    (runFrom exampleGraph ⟨fun _ => 7⟩ ⟨.post, .sol, [(4, [9]), (5, [1])]⟩).map (fun S => readNode S 0 (exampleGraph.size 0)) = some [9, 0] ∧
+    (runFrom exampleGraph ⟨fun _ => 7⟩ ⟨.post, .sol, [(4, [9, 8, 6, 5, 4])]⟩).map (fun S => readNode S 0 (exampleGraph.size 0)) = some [9, 8] := by
+  decide
+
+
+
 example : exampleGraph.inBounds = true := by decide
 example : exampleGraph.wfVars 0 4 2 = true := by decide
 example : tracePost .sol (fun c => c.1 < 4) exampleGraph.entries (1, 0) = some (.init (5, 0)) := by decide
@@ -405,6 +426,191 @@ example : tracePre .basis (fun c => 2 ≤ c.1) exampleGraph.entries.reverse (5, 
 example : tracePre .sol (fun c => 2 ≤ c.1) exampleGraph.entries.reverse (5, 0) = some (.init (1, 0)) := by decide
 example : (runFrom exampleGraph ⟨fun _ => 7⟩ ⟨.post, .basis, [(4, [1, 3, 4]), (5, [5])]⟩).map
     (fun S => (readNode S 0 2, readNode S 1 1)) = some ([1, 3], [3]) := by decide
+
+/-! ## Ties to the source: definitions REGENERATED from the current tree (`translators/gen_valcvt.py` → `MpVerif/Gen/ValCvt.lean`)
+
+Every run of the check regenerates `Gen.ValCvt` from include/mp/valcvt*.h and include/mp/flat/redef/std/range_con.h; the theorems below
+say that the hand model's functions ARE the generated ones, so all theorems of this file speak about the code as it is now, and a change
+of one of these functions breaks a proof obligation (not only a sampled comparison). -/
+
+open MpVerif.Gen in
+/-- `ValueNode::SetNum` (both instantiations, `vector<int>` and `vector<double>`) is the model's `setNumVal`; in particular the
+    int and the double rule are the same function, which is why one exact-rational state models both arrays. -/
+theorem C04_gen_setNum (cur v : Val) : setNumVal cur v = ValCvt.setNumInt cur v ∧ setNumVal cur v = ValCvt.setNumDbl cur v := by
+  constructor <;> rfl
+
+open MpVerif.Gen in
+/-- `RangeCon2Slack::ReverseBasisLowUpp` is the model's `revBasis`. -/
+theorem C04_gen_revBasis (v : Val) : revBasis v = ValCvt.reverseBasisLowUpp v := by
+  unfold revBasis ValCvt.reverseBasisLowUpp
+  by_cases h3 : v = 3
+  · subst h3; simp
+  · by_cases h4 : v = 4
+    · subst h4; simp
+    · have h3' : ¬ (3 : Val) = v := fun h => h3 h.symm
+      have h4' : ¬ (4 : Val) = v := fun h => h4 h.symm
+      simp [h3, h4, h3', h4']
+
+open MpVerif.Gen in
+/-- the `switch` of `RangeCon2Slack::PostsolveIISEntry` (labels, assignments, raising default) is the model's `iisVal`. -/
+theorem C04_gen_iisVal (slk tgt : Val) :
+    iisVal slk tgt = if slk ≠ 0 then switchTable ValCvt.iisCases slk else some tgt := by
+  unfold iisVal switchTable ValCvt.iisCases
+  by_cases h0 : slk = 0
+  · simp [h0]
+  · simp only [ne_eq, h0, not_false_eq_true, if_true]
+    by_cases h1 : slk = 1
+    · subst h1; simp [List.find?]
+    · by_cases h3 : slk = 3
+      · subst h3; simp [List.find?]
+      · by_cases h2 : slk = 2
+        · subst h2; simp [List.find?]
+        · have e1 : ¬ (1 : Val) = slk := fun h => h1 h.symm
+          have e3 : ¬ (3 : Val) = slk := fun h => h3 h.symm
+          have e2 : ¬ (2 : Val) = slk := fun h => h2 h.symm
+          simp [List.find?, h1, h2, h3, e1, e2, e3]
+
+namespace GenTie
+open MpVerif.Gen
+/-- the generated program of `RangeCon2Slack::Presolve<kind>Entry` -/
+def genPre : Kind → List R2SStmt
+  | .generic => ValCvt.presolveGenericDblEntry
+  | .sol => ValCvt.presolveSolutionEntry
+  | .basis => ValCvt.presolveBasisEntry
+  | .iis => ValCvt.presolveIISEntry
+  | .lazy => ValCvt.presolveLazyUserCutFlagsEntry
+/-- … and of `Postsolve<kind>Entry` (the IIS method has control flow and is `execR2SIIS`) -/
+def genPost : Kind → List R2SStmt
+  | .generic => ValCvt.postsolveGenericDblEntry
+  | .sol => ValCvt.postsolveSolutionEntry
+  | .basis => ValCvt.postsolveBasisEntry
+  | .iis => []
+  | .lazy => ValCvt.postsolveLazyUserCutFlagsEntry
+end GenTie
+
+open MpVerif.Gen in
+/-- the `GenericInt` and `GenericDbl` entry methods are the same programs (the model has one `generic` kind) -/
+theorem C04_gen_generic_int_eq_dbl :
+    ValCvt.presolveGenericIntEntry = ValCvt.presolveGenericDblEntry ∧
+    ValCvt.postsolveGenericIntEntry = ValCvt.postsolveGenericDblEntry := by decide
+
+open MpVerif.Gen in
+/-- **Presolve of a `RangeCon2Slack` entry, every kind**: the model's `preEntry` equals the generated method body. -/
+theorem C04_gen_r2s_presolve (k : Kind) (cs ct vs : Cell) (sd : SlackData) (S : St) :
+    preEntry k (.r2s cs ct vs sd) S = execR2S ValCvt.reverseBasisLowUpp ⟨cs, ct, vs, sd⟩ (GenTie.genPre k) S [] := by
+  cases k <;>
+    simp [preEntry, GenTie.genPre, ValCvt.presolveGenericDblEntry, ValCvt.presolveSolutionEntry, ValCvt.presolveBasisEntry,
+      ValCvt.presolveIISEntry, ValCvt.presolveLazyUserCutFlagsEntry, execR2S, evalR2S, R2SCells.cell, ← C04_gen_revBasis]
+
+open MpVerif.Gen in
+/-- **Postsolve of a `RangeCon2Slack` entry, every kind** (IIS: the generated if/switch/else). -/
+theorem C04_gen_r2s_postsolve (k : Kind) (cs ct vs : Cell) (sd : SlackData) (S : St) :
+    postEntry k (.r2s cs ct vs sd) S =
+      (if k = .iis then execR2SIIS ValCvt.iisCases ValCvt.postsolveIISEntry ⟨cs, ct, vs, sd⟩ S
+       else some (execR2S ValCvt.reverseBasisLowUpp ⟨cs, ct, vs, sd⟩ (GenTie.genPost k) S [])) := by
+  cases k
+  · simp [postEntry, GenTie.genPost, ValCvt.postsolveGenericDblEntry, execR2S, evalR2S, R2SCells.cell]
+  · simp [postEntry, GenTie.genPost, ValCvt.postsolveSolutionEntry, execR2S, evalR2S, R2SCells.cell]
+  · simp [postEntry, GenTie.genPost, ValCvt.postsolveBasisEntry, execR2S, evalR2S, R2SCells.cell, ← C04_gen_revBasis]
+  · simp only [postEntry, if_true, execR2SIIS, ValCvt.postsolveIISEntry, R2SCells.cell, C04_gen_iisVal]
+    by_cases h0 : S vs = 0 <;> simp [h0]
+  · simp [postEntry, GenTie.genPost, ValCvt.postsolveLazyUserCutFlagsEntry, execR2S]
+
+open MpVerif.Gen in
+/-- `ValueNode::Add(n)`: the range handed out lies inside the new declared size, which only grows (backs `Graph.inBounds`). -/
+theorem C04_gen_nodeAdd_inBounds (sz n : Int) (hsz : 0 ≤ sz) (hn : 0 < n) :
+    let r := ValCvt.nodeAdd sz n
+    r.1.1 = sz ∧ r.1.2 = sz + n ∧ 0 ≤ r.1.1 ∧ r.1.1 < r.1.2 ∧ r.1.2 ≤ r.2 ∧ sz ≤ r.2 := by
+  have : ¬ (sz + n < 0) := by omega
+  simp only [ValCvt.nodeAdd, ValCvt.indexRangeCtor, this, if_false]
+  refine ⟨trivial, trivial, ?_, ?_, ?_, ?_⟩ <;> omega
+
+open MpVerif.Gen in
+/-- `ValueNode::Select(pos, n)` with `pos ≥ 0` or `pos = -k` (k-th from the end, `k ≤ sz`): the range lies inside the new size,
+    which is `max sz (pos+n)`. -/
+theorem C04_gen_nodeSelect_inBounds (sz pos n : Int) (hsz : 0 ≤ sz) (hn : 0 < n) (hpos : -sz ≤ pos) :
+    let r := ValCvt.nodeSelect sz pos n
+    0 ≤ r.1.1 ∧ r.1.1 < r.1.2 ∧ r.1.2 = r.1.1 + n ∧ r.1.2 ≤ r.2 ∧ sz ≤ r.2 ∧ (r.2 = sz ∨ r.2 = r.1.2) := by
+  simp only [ValCvt.nodeSelect, ValCvt.indexRangeCtor]
+  by_cases hp : pos < 0
+  · have h1 : ¬ (sz + pos + n < 0) := by omega
+    simp only [hp, if_true, h1, if_false]
+    by_cases h2 : sz < sz + pos + n <;> simp only [h2, if_true, if_false] <;>
+      refine ⟨?_, ?_, trivial, ?_, ?_, ?_⟩ <;> first | omega | simp
+  · have h1 : ¬ (pos + n < 0) := by omega
+    simp only [hp, if_false, h1]
+    by_cases h2 : sz < pos + n <;> simp only [h2, if_true, if_false] <;>
+      refine ⟨?_, ?_, trivial, ?_, ?_, ?_⟩ <;> first | omega | simp
+
+/-! ### structure ties: what exists in the source is what the model covers -/
+
+open MpVerif.Gen in
+/-- the value kinds (`LIST_PRESOLVE_METHODS`): the five numeric kinds of the model (+`GenericInt` = `generic`) and `Names` (C19) -/
+theorem C04_gen_kinds : ValCvt.presolveKinds = ["GenericDbl", "GenericInt", "Solution", "Basis", "IIS", "LazyUserCutFlags", "Names"] := by decide
+
+open MpVerif.Gen in
+/-- the link classes: `copy` = CopyLink; `m2m` = Many2ManyLink and its two subclasses (which inherit every pre/postsolve method) -/
+theorem C04_gen_link_classes : ValCvt.linkClasses =
+    [("CopyLink", "BasicLink"), ("Many2ManyLink", "BasicLink"), ("One2ManyLink", "Many2ManyLink"), ("Many2OneLink", "Many2ManyLink")] := by decide
+
+open MpVerif.Gen in
+/-- every kind of `CopyLink` presolves by `CopySrcDest` and postsolves by `CopyDestSrc`; every kind of `Many2ManyLink` by
+    `DistributeFromSrc2Dest` / `CollectFromDest2Src` — the model's `copy` / `m2m` entries ignore the kind for exactly this reason -/
+theorem C04_gen_link_methods_uniform :
+    ValCvt.linkMethodHelper = (["CopyLink", "Many2ManyLink"].flatMap fun c =>
+      (["Postsolve", "Presolve"].flatMap fun d =>
+        (["Basis", "GenericDbl", "GenericInt", "IIS", "LazyUserCutFlags", "Names", "Solution"].map fun k =>
+          (c, d ++ k, if c = "CopyLink" then (if d = "Presolve" then "CopySrcDest" else "CopyDestSrc")
+                      else (if d = "Presolve" then "DistributeFromSrc2Dest" else "CollectFromDest2Src"))))) := by decide
+
+open MpVerif.Gen in
+/-- presolve helpers run the entries of a range forwards and copy/distribute `first → second`; postsolve helpers run backwards and
+    copy `second → first` / collect into `first` (`copyRange … s→d` / `d→s`, `distrAll` / `collectAll`, `runPost` on the reversed list) -/
+theorem C04_gen_helper_shape : ValCvt.helperShape =
+    [("CollectFromDest2Src", "bwd", "Collect", ["first", "second"]), ("CopyDestSrc", "bwd", "Copy", ["second", "first"]),
+     ("CopySrcDest", "fwd", "Copy", ["first", "second"]), ("DistributeFromSrc2Dest", "fwd", "Distr", ["first", "second"])] ∧
+    ValCvt.m2mWrites = [("Collect", "nr1"), ("Distr", "nr2")] := by decide
+
+open MpVerif.Gen in
+/-- `RunPresolve` / `RunPostsolve`: clean ALL nodes, load the argument, run the link ranges forwards / backwards, return the other side
+    (= `runFrom`: `loadInto (clean prev)`, `runPre` / `runPost`) -/
+theorem C04_gen_run_skeleton :
+    ValCvt.runPresolveSkeleton = ["call:CleanUpValueNodes", "assign:src_:=mv", "loop:fwd:brl_", "return:dest_"] ∧
+    ValCvt.runPostsolveSkeleton = ["call:CleanUpValueNodes", "assign:dest_:=mv", "loop:bwd:brl_", "return:src_"] := by decide
+
+open MpVerif.Gen in
+/-- `RangeCon2Slack` defines exactly one `Presolve<K>Entry` and one `Postsolve<K>Entry` per kind -/
+theorem C04_gen_r2s_methods : ValCvt.r2sEntryMethods =
+    ["PostsolveBasisEntry", "PostsolveGenericDblEntry", "PostsolveGenericIntEntry", "PostsolveIISEntry", "PostsolveLazyUserCutFlagsEntry",
+     "PostsolveNamesEntry", "PostsolveSolutionEntry", "PresolveBasisEntry", "PresolveGenericDblEntry", "PresolveGenericIntEntry",
+     "PresolveIISEntry", "PresolveLazyUserCutFlagsEntry", "PresolveNamesEntry", "PresolveSolutionEntry"] := by decide
+
+/-! ### non-trivial instances of the hypotheses of the certificate / chain theorems -/
+
+/-- `C04_basis_slack` applied: the range constraint of the example graph gets the reversed status of its slack (solver: slack `upp`=4) -/
+example (S' : St) (h : runFrom exampleGraph ⟨fun _ => 9⟩ ⟨.post, .basis, [(4, [1, 3, 4]), (5, [5])]⟩ = some S') : S' (1, 0) = 3 := by
+  have := C04_basis_slack exampleGraph [(4, [1, 3, 4]), (5, [5])] ⟨fun _ => 9⟩ S' (fun c => decide (c.1 < 4))
+    (by intro c hc; have : c.1 < 4 := by simpa using hc
+        have h4 : (c.1 == 4) = false := by simp; omega
+        have h5 : (c.1 == 5) = false := by simp; omega
+        simp [List.lookup, h4, h5]) (1, 0) 4 2 [1, 3, 4] (by decide) (by decide) (by decide) h
+  simpa [revBasis] using this
+
+/-- `C04_chain_copy_slack_copy` applied to the example graph (A = [variable copy], M = N = T = []) -/
+example (k : Kind) : tracePost k (fun c => decide (c.1 < 4)) exampleGraph.entries (1, 0)
+    = some (r2sPostOrigin k (.init (5, 0)) (.init (4, 2))) := by
+  have := C04_chain_copy_slack_copy k (fun c => decide (c.1 < 4)) [.copy ⟨0, 0, 2⟩ ⟨4, 0, 2⟩] [] [] [] ⟨1, 0, 1⟩ ⟨2, 0, 1⟩ ⟨3, 0, 1⟩ ⟨5, 0, 1⟩ 0 0
+    (2, 0) (3, 0) (4, 2) ⟨[(1, 0), (1, 1)], [], 1⟩ (by decide) (by decide) (by decide) (by decide) rfl rfl (by decide) (by decide)
+    (by decide) (by decide) (by decide) (by decide) (by decide) (by decide)
+  simpa [exampleGraph] using this
+
+/-- `C04_shared_presolve_max` / `C04_shared_postsolve_reaches` applied to the shared graph: both users count -/
+example (S' : St) (h : runFrom sharedGraph ⟨fun _ => 2⟩ ⟨.pre, .generic, [(0, [5, 9])]⟩ = some S') : S' (2, 0) = 9 := by
+  have := C04_shared_presolve_max sharedGraph .generic [(0, [5, 9])] ⟨fun _ => 2⟩ S' (fun c => decide (c.1 ≠ 0))
+    (by intro c hc; have : c.1 ≠ 0 := by simpa using hc
+        have h0 : (c.1 == 0) = false := by simp [this]
+        simp [List.lookup, h0]) (2, 0) [(0, 0), (0, 1)] (by decide) (by decide) h
+  rw [this]; decide
 
 /-! ## History independence -/
 
@@ -422,6 +628,59 @@ theorem C04_history_independent (g : Graph) (s0 : St) (cs : List Call) :
     simp only [session, List.map_cons]
     rw [ih]
     rfl
+
+/-- The node contents after a call that RAISED are whatever the exception left behind: with ANY function `dirt` describing them,
+    every later call still returns what it returns on a fresh presolver. -/
+def sessionD (g : Graph) (dirt : St → Call → St) : St → List Call → List (Option St)
+  | _, [] => []
+  | prev, c :: cs =>
+    let r := runFrom g prev c
+    r :: sessionD g dirt (r.getD (dirt prev c)) cs
+
+theorem C04_history_independent_any_dirt (g : Graph) (dirt : St → Call → St) (s0 : St) (cs : List Call) :
+    sessionD g dirt s0 cs = cs.map (runFrom g ⟨fun _ => 0⟩) := by
+  induction cs generalizing s0 with
+  | nil => rfl
+  | cons c cs ih =>
+    simp only [sessionD, List.map_cons]
+    rw [ih]
+    rfl
+
+/-- a history of five calls of different kinds and directions, one of them raising, from dirty nodes -/
+example : (session exampleGraph ⟨fun _ => 3⟩
+      [⟨.post, .iis, [(4, [0, 0, 4]), (5, [1])]⟩, ⟨.pre, .basis, [(0, [1, 3]), (1, [4])]⟩, ⟨.post, .sol, [(4, [1, 2, 3]), (5, [7])]⟩,
+       ⟨.pre, .generic, [(0, [2, 2]), (1, [6])]⟩, ⟨.post, .basis, [(4, [1, 3, 4]), (5, [5])]⟩]).map (fun r => r.map (fun S => (readNode S 0 2, readNode S 1 1, readNode S 4 3, readNode S 5 1)))
+    = [none, some ([1, 3], [4], [1, 3, 3], [5]), some ([1, 2], [7], [1, 2, 3], [7]), some ([2, 2], [6], [2, 2, 6], [6]), some ([1, 3], [3], [1, 3, 4], [5])] := by
+  decide
+
+/-- **IIS postsolve returns** when every range-slack variable is read-only in the run and carries one of the statuses
+    non / low / fix / upp (the guard the real `switch` has; the error branch is `C04_counterexample_iis_unknown_slack_status`). -/
+theorem C04_iis_total_partial (es : List Entry) (S : St)
+    (h : ∀ e ∈ es, ∀ cs ct vs sd, e = .r2s cs ct vs sd →
+      (∀ e' ∈ es, e'.postWrites vs = false) ∧ (S vs = 0 ∨ S vs = 1 ∨ S vs = 2 ∨ S vs = 3)) :
+    ∃ S', runPost .iis es S = some S' := by
+  induction es with
+  | nil => exact ⟨S, rfl⟩
+  | cons e B ih =>
+    have hB : ∀ e' ∈ B, ∀ cs ct vs sd, e' = .r2s cs ct vs sd →
+        (∀ e'' ∈ B, e''.postWrites vs = false) ∧ (S vs = 0 ∨ S vs = 1 ∨ S vs = 2 ∨ S vs = 3) := by
+      intro e' he' cs ct vs sd heq
+      have := h e' (List.mem_cons_of_mem _ he') cs ct vs sd heq
+      exact ⟨fun e'' he'' => this.1 e'' (List.mem_cons_of_mem _ he''), this.2⟩
+    obtain ⟨S1, h1⟩ := ih hB
+    rw [runPost_cons, h1]
+    simp only [Option.bind_some]
+    cases e with
+    | copy s d => exact ⟨_, rfl⟩
+    | m2m s d => exact ⟨_, rfl⟩
+    | r2s cs ct vs sd =>
+      have hh := h _ (List.mem_cons_self ..) cs ct vs sd rfl
+      have hfr : S1 vs = S vs :=
+        runPost_frame .iis B S S1 vs (fun e' he' => hh.1 e' (List.mem_cons_of_mem _ he')) h1
+      exact C04_iis_returns_partial S1 cs ct vs sd (by rw [hfr]; exact hh.2)
+
+/-- instance: the example graph with slack status `upp` (3) -/
+example : (runFrom exampleGraph ⟨fun _ => 0⟩ ⟨.post, .iis, [(4, [0, 0, 3]), (5, [2])]⟩).map (fun S => readNode S 1 1) = some [1] := by decide
 
 /-! ## Frame: nothing is invented -/
 
